@@ -246,6 +246,9 @@ func TestMutFrames(t *testing.T) {
 	hx.Check(t, 8, func(t *rapid.T) {
 		ctl := drawCtl(t, frameCtl)
 		ctl[0] = byte(rapid.IntRange(0, len(frameEntries)-1).Draw(t, "entry"))
+		if rapid.Bool().Draw(t, "continueAfterError") {
+			ctl[0] += byte(len(frameEntries))
+		}
 		// three cases out of four: the stream is built for the side that reads it
 		masked := rapid.Bool().Draw(t, "masked")
 		if rapid.IntRange(0, 3).Draw(t, "matchSide") > 0 {
@@ -263,7 +266,21 @@ func TestMutFrames(t *testing.T) {
 				ctl[2] &^= 1
 			}
 		}
-		seed := seedFrames(t, "seed", masked, compressed)
+		seed := []byte(nil)
+		if !compressed && rapid.IntRange(0, 7).Draw(t, "longLived") == 0 {
+			// a long-lived checking reader that goes on after message-level
+			// errors, over a stream with a text message that may end inside a
+			// multi-byte sequence and is followed by control frames and messages
+			ctl[0] = 2 + byte(len(frameEntries))
+			ctl[1] = ctl[1]&0x80 | 4 // UTF-8 check on, no extension, no size limit; top-level controls handled or read
+			if !masked {
+				ctl[1] |= 1
+			}
+			ctl[2] &= 0x30 // window size only: header check on, default OnIntermediate, messages read
+			seed = utf8EdgeStream(t, "seed.longLived", masked)
+		} else {
+			seed = seedFrames(t, "seed", masked, compressed)
+		}
 		body, n := mutate(t, seed, func() []byte { return seedFrames(t, "other", masked, compressed) }, m)
 		hx.Class(fmt.Sprintf("frames/mutations=%d", n))
 		runCase(t, targetFrames, ctl, body)
@@ -586,20 +603,33 @@ func utf8EdgeStream(t *rapid.T, label string, masked bool) []byte {
 		}
 		return ref.Frame{H: h, Payload: p}
 	}
-	fs := []ref.Frame{mk(ref.OpText, false, append(bytes.Repeat([]byte{'a'}, size), seq[:cut]...))}
-	for k := rapid.IntRange(0, 3).Draw(t, label+".empties"); k > 0; k-- {
+	single := rapid.IntRange(0, 2).Draw(t, label+".single") == 0 // the whole message in one final frame
+	fs := []ref.Frame{mk(ref.OpText, single, append(bytes.Repeat([]byte{'a'}, size), seq[:cut]...))}
+	for k := rapid.IntRange(0, 3).Draw(t, label+".empties"); k > 0 && !single; k-- {
 		fs = append(fs, mk(ref.OpCont, false, nil))
 		if rapid.IntRange(0, 3).Draw(t, label+".ctl") == 0 {
 			fs = append(fs, gen.CtlFrame(t, label+".ictl", masked))
 		}
 	}
-	if rapid.Bool().Draw(t, label+".emptyFinal") {
+	switch fin := rapid.IntRange(0, 2).Draw(t, label+".final"); {
+	case single:
+	case fin == 0:
 		fs = append(fs, mk(ref.OpCont, true, nil))
-	} else {
+	case fin == 1:
 		fs = append(fs, mk(ref.OpCont, true, []byte(seq[cut:])))
+	default: // a final fragment that again stops inside the sequence
+		fs = append(fs, mk(ref.OpCont, true, []byte("bb"+seq[:rapid.IntRange(0, len(seq)-1).Draw(t, label+".cut2")])))
 	}
-	if rapid.Bool().Draw(t, label+".more") {
-		fs = append(fs, mk(ref.OpText, true, []byte("next")))
+	for k := rapid.IntRange(0, 2).Draw(t, label+".after"); k > 0; k-- {
+		// what a long-lived reader meets next: control frames with a payload, more messages
+		switch rapid.IntRange(0, 2).Draw(t, label+".afterKind") {
+		case 0:
+			fs = append(fs, gen.CtlFrame(t, label+".actl", masked))
+		case 1:
+			fs = append(fs, mk(ref.OpText, true, []byte("next")))
+		default:
+			fs = append(fs, mk(ref.OpPing, true, []byte("0123456789")))
+		}
 	}
 	return ref.EncodeAll(fs)
 }
